@@ -394,6 +394,31 @@ struct Tables {
 }
 thread_local! { static TAB: RefCell<Tables> = RefCell::new(Tables::default()); }
 
+/// A handle taken out of the table for the duration of an operation; put back when the operation ends - also when
+/// its future is dropped half-way (a cancelled operation must not lose the handle it merely borrowed).
+struct Held {
+    name: String,
+    h: Option<HandleV>,
+}
+impl Held {
+    fn take(name: &str) -> Self {
+        Held { name: name.to_string(), h: Some(take_h(name)) }
+    }
+    fn get(&self) -> &HandleV {
+        self.h.as_ref().expect("held handle")
+    }
+    fn get_mut(&mut self) -> &mut HandleV {
+        self.h.as_mut().expect("held handle")
+    }
+}
+impl Drop for Held {
+    fn drop(&mut self) {
+        if let Some(h) = self.h.take() {
+            put_h(&self.name, h);
+        }
+    }
+}
+
 fn take_h(name: &str) -> HandleV {
     TAB.with(|t| t.borrow_mut().handles.remove(name)).unwrap_or_else(|| panic!("harness: no handle {name}"))
 }
@@ -628,29 +653,29 @@ async fn run_op(c: &str, n: i64, o: &Op) -> Res {
             r("ok", "none".into())
         }
         "send" => {
-            let h = take_h(&o.h);
-            let a = actor_of(h.aid());
-            let x = match &h {
+            let h = Held::take(&o.h);
+            let a = actor_of(h.get().aid());
+            let x = match h.get() {
                 Addr(x) => x.send(SMsg(desc(c, n, o))).await,
                 Owning(x) => x.send(SMsg(desc(c, n, o))).await,
                 Sender(x) => x.send(SMsg(desc(c, n, o))).await,
                 WSender(x) => x.try_send(SMsg(desc(c, n, o))).await,
                 _ => panic!("harness: send on wrong kind"),
             };
-            put_h(&o.h, h);
+            drop(h);
             r(okerr(&x), a)
         }
         "call" => {
-            let h = take_h(&o.h);
-            let a = actor_of(h.aid());
-            let x = match &h {
+            let h = Held::take(&o.h);
+            let a = actor_of(h.get().aid());
+            let x = match h.get() {
                 Addr(x) => x.call(CMsg(desc(c, n, o))).await,
                 Owning(x) => x.call(CMsg(desc(c, n, o))).await,
                 Caller(x) => x.call(CMsg(desc(c, n, o))).await,
                 WCaller(x) => x.try_call(CMsg(desc(c, n, o))).await,
                 _ => panic!("harness: call on wrong kind"),
             };
-            put_h(&o.h, h);
+            drop(h);
             match x {
                 Ok(rep) => {
                     assert!(rep.m == (c.to_string(), n) || true);
@@ -660,14 +685,14 @@ async fn run_op(c: &str, n: i64, o: &Op) -> Res {
             }
         }
         "ping" => {
-            let h = take_h(&o.h);
-            let a = actor_of(h.aid());
-            let x = match &h {
+            let h = Held::take(&o.h);
+            let a = actor_of(h.get().aid());
+            let x = match h.get() {
                 Addr(x) => x.ping().await,
                 Owning(x) => x.ping().await,
                 _ => panic!("harness: ping on wrong kind"),
             };
-            put_h(&o.h, h);
+            drop(h);
             r(okerr(&x), a)
         }
         "stop" | "restart" | "try_stop" => {
@@ -683,13 +708,13 @@ async fn run_op(c: &str, n: i64, o: &Op) -> Res {
             r(okerr(&x), a)
         }
         "try_halt" => {
-            let mut h = take_h(&o.h);
-            let a = actor_of(h.aid());
-            let x = match &mut h {
+            let mut h = Held::take(&o.h);
+            let a = actor_of(h.get().aid());
+            let x = match h.get_mut() {
                 WAddr(x) => x.try_halt().await,
                 _ => panic!("harness: try_halt on wrong kind"),
             };
-            put_h(&o.h, h);
+            drop(h);
             r(okerr(&x), a)
         }
         "halt" | "await" => {
@@ -708,13 +733,13 @@ async fn run_op(c: &str, n: i64, o: &Op) -> Res {
             r(okerr(&x), a)
         }
         "await_ref" => {
-            let mut h = take_h(&o.h);
-            let a = actor_of(h.aid());
-            let x = match &mut h {
+            let mut h = Held::take(&o.h);
+            let a = actor_of(h.get().aid());
+            let x = match h.get_mut() {
                 Addr(x) => x.wait_ref().await,
                 _ => panic!("harness: await_ref on wrong kind"),
             };
-            put_h(&o.h, h);
+            drop(h);
             r(okerr(&x), a)
         }
         "stopped" | "running" => {
@@ -895,13 +920,13 @@ async fn run_op(c: &str, n: i64, o: &Op) -> Res {
             r("ok", a)
         }
         "join" => {
-            let mut h = take_h(&o.h);
-            let a = actor_of(h.aid());
+            let mut h = Held::take(&o.h);
+            let a = actor_of(h.get().aid());
             // d = 2: an earlier join future that was polled once and is parked must not block a later join
             //        (the later one finds the handle taken and returns None at once);
             // d = 3: a join future that was created but never polled, then dropped, takes nothing with it.
             // For the specification all of these are the plain `join` operation.
-            let j = match &mut h {
+            let j = match h.get_mut() {
                 Owning(x) => match o.d {
                     2 => {
                         let mut f1 = x.join();
@@ -922,7 +947,7 @@ async fn run_op(c: &str, n: i64, o: &Op) -> Res {
                 },
                 _ => panic!("harness: join on wrong kind"),
             };
-            put_h(&o.h, h);
+            drop(h);
             match j {
                 Some(j) => Res { res: "some", pos: j.st_len, inst: j.inst, a },
                 None => r("none", a),
@@ -968,7 +993,20 @@ async fn client(name: String, prog: Vec<Op>) {
         }
         n += 1;
         ev(json!({"ev": "op_begin", "task": name, "n": n, "o": o}));
-        let res = run_op(&name, n, o).await;
+        // d = 1 on an awaiting operation: poll it once and, if it is still pending, drop it (a select! that lost, a timeout)
+        let cancellable = o.d == 1 && matches!(o.op.as_str(), "send" | "call" | "ping" | "await_ref" | "try_halt" | "join" | "halt" | "await" | "consume");
+        let res = if cancellable {
+            let mut f = Box::pin(run_op(&name, n, o));
+            match futures::poll!(f.as_mut()) {
+                std::task::Poll::Ready(res) => res,
+                std::task::Poll::Pending => {
+                    drop(f);
+                    r("cancelled", "*".into())
+                }
+            }
+        } else {
+            run_op(&name, n, o).await
+        };
         ev(json!({"ev": "op_end", "task": name, "n": n, "res": res.res, "pos": res.pos, "inst": res.inst, "a": res.a}));
     }
 }
